@@ -244,7 +244,7 @@ impl RcvdJournal {
             let size = range_count_size_increment(ranges.len())
                 + gap.encoding_size()
                 + ack.encoding_size();
-            if capacity > size {
+            if capacity >= size {
                 // capacity -= size; unnecessary, never read latter
                 ranges.push((gap, ack));
             }
